@@ -16,6 +16,10 @@ Probed facts (Lean data in Gen/C01.lean, decided against the model in Props/C01.
  * mapperProbes    scenarios run through a real `RoutesMapper` (connect + __call__ with a real Request): order, `continue`
                    after a failing predicate, predicates see the match dictionary, static routes, re-connecting a name,
                    empty / missing PATH_INFO, invalid UTF-8; Lean decides them against `runDecls` + `mapperCall`.
+ * predicateAttached  for every built-in predicate keyword of `add_route` and a range of values including the falsy but
+                   meaningful ones (`xhr=False`, `request_method=()`, `header=''`, `accept=()`, `is_authenticated=False`,
+                   `effective_principals=()` …): how many predicates the connected route carries — Lean decides "one iff the
+                   value is not None" against the model's `addRoute`.
  * cfg             the enum summary `Pyr.Route.Cfg`, *derived from the probes* (anchor = what follows the escaped literal,
                    default placeholder regex = what `{x}` expands to, remainder template, literals escaped with re.escape,
                    old-style / star / brace grammar and `split(':', 1)` by discriminating probes with a fixed expected
@@ -127,6 +131,21 @@ MAPPER = [
     ([], '/x'),
     ([('r', '/a/*rest', [], False)], '/a/b/./c/../d//e\nf/'),
     ([('a', '/foo', [], False)], '/foo\n'),
+]
+
+
+# add_route keyword -> values tried: which of them attach a route predicate (None = keyword left unset)
+ATTACH = [
+    ('xhr', [None, False, True, 0, 1, '']),
+    ('request_method', [None, (), '', [], 'GET', ('GET', 'POST')]),
+    ('path_info', [None, '', '/x']),
+    ('request_param', [None, '', (), 'a', 'a=1', ('a', 'b')]),
+    ('header', [None, '', (), 'X-A', 'X-A:1', ('X-A',)]),
+    ('accept', [None, (), 'text/html', ['text/html', 'application/json']]),
+    ('traverse', [None, '', '/a/{x}']),
+    ('is_authenticated', [None, False, True]),
+    ('effective_principals', [None, (), 'a', ('a',)]),
+    ('custom_predicates', [()]),
 ]
 
 
@@ -244,6 +263,20 @@ def _probe():
             mp.append({'decls': [[n, p, [x if isinstance(x, bool) else list(x) for x in ps], s] for n, p, ps, s in decls],
                        'path': path, 'out': res})
         out['mapper'] = mp
+        # which keyword values make add_route attach a predicate
+        from pyramid.config import Configurator
+        rows = []
+        for kw, vs in ATTACH:
+            for v in vs:
+                unset = v is None or (kw == 'custom_predicates' and v == ())
+                try:
+                    c = Configurator()
+                    c.add_route('r', '/x', **{kw: v})
+                    c.commit()
+                    rows.append([kw, repr(v), unset, len(c.get_routes_mapper().get_route('r').predicates)])
+                except Exception as e:
+                    out['problems'].append('add_route(%s=%r): %s' % (kw, v, type(e).__name__))
+        out['attach'] = rows
     except Exception as e:
         out['problems'].append('probe failed: %s: %s' % (type(e).__name__, e))
     print(json.dumps(out))
@@ -365,7 +398,7 @@ def generate(src_root):
     summary.update(cfg)
     summary['source_texts'] = texts
     summary['probes'] = {'patterns': len(f.get('compile', [])), 'matcher_calls': sum(len(p.get('matches', [])) for p in f.get('compile', [])),
-                         'mapper_scenarios': len(f.get('mapper', []))}
+                         'mapper_scenarios': len(f.get('mapper', [])), 'attach_rows': len(f.get('attach', []))}
     summary['problems'] = problems
     fields = ', '.join('%s := %s' % (k, v if v in ('true', 'false') else '.' + v) for k, v in cfg.items())
     L = ['import PyramidModel.Lemmas.RouteProbe',
@@ -410,5 +443,9 @@ def generate(src_root):
             lo = '.unknown'
         rows.append('  ⟨[%s], %s, %s⟩' % (ds, path, lo))
     L.append(',\n'.join(rows))
+    L += [']', '', '/-- add_route keyword, the value passed, whether that is the unset value (None; () for custom_predicates), and how',
+          'many predicates the connected route carries -/',
+          'def predicateAttached : List AProbe := [']
+    L.append(',\n'.join('  ⟨%s, %s, %s, %d⟩' % (lean_str(k), lean_str(v), str(u).lower(), n) for k, v, u, n in ([] if problems else f.get('attach', []))))
     L += [']', '', 'end Pyr.Gen.C01', '']
     return {'PyramidModel/Gen/C01.lean': '\n'.join(L)}
